@@ -157,6 +157,7 @@ func (c *Ctx) errorFlowRule(rule string, fn *ssa.Function, exc []ErrException, c
 		}
 		// the error may be spilled into a cell (named variable captured / defer spill): follow one level
 		vals := []ssa.Value{errVal}
+		merged := map[ssa.Value]bool{}
 		for _, ref := range nonDebugRefs(errVal) {
 			if st, ok := ref.(*ssa.Store); ok && st.Val == errVal {
 				if cell, ok := st.Addr.(*ssa.Alloc); ok {
@@ -168,9 +169,73 @@ func (c *Ctx) errorFlowRule(rule string, fn *ssa.Function, exc []ErrException, c
 				}
 			}
 		}
+		// the error may be wrapped / merged on the spot: errors.Join(acc, err), multierror.Append(acc, err),
+		// fmt.Errorf("...%w", err). The merged value then carries the obligation.
+		for i := 0; i < len(vals) && i < 8; i++ {
+			for _, ref := range nonDebugRefs(vals[i]) {
+				// variadic: the value is stored into the varargs array of the merging call
+				var user *ssa.Call
+				switch u := ref.(type) {
+				case *ssa.Call:
+					user = u
+				case *ssa.Store:
+					if ia, ok := u.Addr.(*ssa.IndexAddr); ok {
+						if al, ok := ia.X.(*ssa.Alloc); ok && al.Comment == "varargs" {
+							for _, ar := range nonDebugRefs(al) {
+								if sl, ok := ar.(*ssa.Slice); ok {
+									for _, sr := range nonDebugRefs(sl) {
+										if cu, ok := sr.(*ssa.Call); ok {
+											user = cu
+										}
+									}
+								}
+							}
+						}
+					}
+				case *ssa.MakeInterface:
+					for _, mr := range nonDebugRefs(u) {
+						if st, ok := mr.(*ssa.Store); ok {
+							if ia, ok := st.Addr.(*ssa.IndexAddr); ok {
+								if al, ok := ia.X.(*ssa.Alloc); ok && al.Comment == "varargs" {
+									for _, ar := range nonDebugRefs(al) {
+										if sl, ok := ar.(*ssa.Slice); ok {
+											for _, sr := range nonDebugRefs(sl) {
+												if cu, ok := sr.(*ssa.Call); ok {
+													user = cu
+												}
+											}
+										}
+									}
+								}
+							}
+						}
+					}
+				}
+				if user == nil {
+					continue
+				}
+				switch calleeName(&user.Call) {
+				case "errors.Join", "github.com/hashicorp/go-multierror.Append", "fmt.Errorf":
+					if _, isErr := returnsError(user.Call.Signature()); isErr {
+						dup := false
+						for _, x := range vals {
+							if x == ssa.Value(user) {
+								dup = true
+							}
+						}
+						if !dup {
+							vals = append(vals, user)
+							merged[user] = true
+						}
+					}
+				}
+			}
+		}
 		tb := p.NewTerms(nil)
 		errS := tb.Of(errVal).String()
 		checked := false
+		carried := false
+		tested := false
 		for _, v := range vals {
 			for _, ref := range nonDebugRefs(v) {
 				switch u := ref.(type) {
@@ -184,6 +249,7 @@ func (c *Ctx) errorFlowRule(rule string, fn *ssa.Function, exc []ErrException, c
 							continue
 						}
 						checked = true
+						tested = true
 						errBlk := iff.Block().Succs[0]
 						if u.Op == token.EQL {
 							errBlk = iff.Block().Succs[1]
@@ -212,6 +278,22 @@ func (c *Ctx) errorFlowRule(rule string, fn *ssa.Function, exc []ErrException, c
 						}
 					}
 				case *ssa.Phi:
+					// carried around a loop's back edge untested: the next iteration's assignment
+					// overwrites it before anything looks at it (only the last iteration's error survives)
+					if phiCarriedAroundLoop(u, in.Block(), loopHeaders(fn), 0) {
+						if hp := headerPhiOf(u, in.Block(), loopHeaders(fn), 0); hp != nil && valueUses(v, hp, 0) {
+							// acc = merge(acc, err): accumulation, every iteration's error is kept
+							for _, ret := range Returns(fn) {
+								rv := RetVals(ret)
+								if fnReturnsErr && errIdx < len(rv) && termMentions(tb.Of(rv[errIdx]), v, errS) {
+									checked = true
+								}
+							}
+							continue
+						}
+						carried = true
+						continue
+					}
 					// flows into an accumulator / merged error: accept when the phi reaches a return
 					for _, ret := range Returns(fn) {
 						rv := RetVals(ret)
@@ -222,7 +304,9 @@ func (c *Ctx) errorFlowRule(rule string, fn *ssa.Function, exc []ErrException, c
 				}
 			}
 		}
-		if !checked {
+		if carried && !tested {
+			report(construct, p.InstrPos(in), "the error returned by "+name+" is only stored in a variable that the next loop iteration overwrites: it is examined after the loop, so every failure but the last iteration's is lost")
+		} else if !checked {
 			report(construct, p.InstrPos(in), "the error returned by "+name+" is neither tested against nil nor returned")
 		} else if !flagged && !control {
 			// recorded per call site below
@@ -447,3 +531,81 @@ func flowsIntoPhi(v ssa.Value, phi *ssa.Phi) bool {
 }
 
 var _ = strings.Contains
+
+// phiCarriedAroundLoop: the phi (or a phi it feeds) sits at the header of a loop
+// that contains block b: the value is carried around the back edge.
+func phiCarriedAroundLoop(phi *ssa.Phi, b *ssa.BasicBlock, headers map[*ssa.BasicBlock]bool, d int) bool {
+	if d > 4 {
+		return false
+	}
+	if hb := phi.Block(); headers[hb] && (hb == b || hb.Dominates(b)) && reachableFrom(b)[hb] {
+		return true
+	}
+	for _, ref := range nonDebugRefs(phi) {
+		if p2, ok := ref.(*ssa.Phi); ok && p2 != phi {
+			if phiCarriedAroundLoop(p2, b, headers, d+1) {
+				return true
+			}
+		}
+	}
+	return false
+}
+
+// headerPhiOf returns the loop-header phi that phi (transitively) feeds.
+func headerPhiOf(phi *ssa.Phi, b *ssa.BasicBlock, headers map[*ssa.BasicBlock]bool, d int) *ssa.Phi {
+	if d > 4 {
+		return nil
+	}
+	if hb := phi.Block(); headers[hb] && (hb == b || hb.Dominates(b)) && reachableFrom(b)[hb] {
+		return phi
+	}
+	for _, ref := range nonDebugRefs(phi) {
+		if p2, ok := ref.(*ssa.Phi); ok && p2 != phi {
+			if h := headerPhiOf(p2, b, headers, d+1); h != nil {
+				return h
+			}
+		}
+	}
+	return nil
+}
+
+// valueUses: v is computed from target (operand chain through calls, varargs, phis).
+func valueUses(v, target ssa.Value, d int) bool {
+	if v == target {
+		return true
+	}
+	if d > 6 {
+		return false
+	}
+	switch x := v.(type) {
+	case *ssa.Call:
+		for _, a := range x.Call.Args {
+			if valueUses(a, target, d+1) {
+				return true
+			}
+		}
+	case *ssa.Slice:
+		if al, ok := x.X.(*ssa.Alloc); ok {
+			for _, ref := range nonDebugRefs(al) {
+				if ia, ok := ref.(*ssa.IndexAddr); ok {
+					for _, r2 := range nonDebugRefs(ia) {
+						if st, ok := r2.(*ssa.Store); ok && valueUses(st.Val, target, d+1) {
+							return true
+						}
+					}
+				}
+			}
+		}
+	case *ssa.MakeInterface:
+		return valueUses(x.X, target, d+1)
+	case *ssa.ChangeInterface:
+		return valueUses(x.X, target, d+1)
+	case *ssa.Phi:
+		for _, e := range x.Edges {
+			if e != v && valueUses(e, target, d+1) {
+				return true
+			}
+		}
+	}
+	return false
+}
